@@ -518,7 +518,11 @@ func (w *inotify) handleEvent(inEvent *unix.InotifyEvent, buf *[65536]byte, offs
 						continue
 					}
 					if ww.path == ev.renamedFrom || strings.HasPrefix(ww.path, ev.renamedFrom+"/") {
+						// Keep the path → wd table in sync too, or the old name
+						// keeps pointing at this watch.
+						delete(w.watches.path, ww.path)
 						ww.path = strings.Replace(ww.path, ev.renamedFrom, ev.Name, 1)
+						w.watches.path[ww.path] = k
 						w.watches.wd[k] = ww
 					}
 				}
